@@ -114,7 +114,7 @@ class C18(Config):
               "Local Open Scope Z_scope.")
     bin = "c18"
     release_too = False
-    n_tags = 100          # 49 path tags x {pure, persisted}; 44/46 (shift + Reevaluate/Complete) and 1 (no-op, pure) are unreachable
+    n_tags = 108          # 49 path tags x {pure, persisted}; 44/46 (shift + Reevaluate/Complete) and 1 (no-op, pure) are unreachable
     shard_size = 400
     classes = {}          # both classes were repaired in /repo (known_findings.d/C18.json, kind "fixed")
     rule = ("one case per executed public API call on a MigrationState (store_proved_transaction, apply_signature, rebuild_expired_transfer[_unsigned], "
